@@ -379,6 +379,14 @@ func (u *Unit) libraryCall(c *ast.CallExpr, fun ast.Expr, env *Env) ([]Outcome, 
 				}
 			}
 		}
+		if fn.Name() == "Sprint" && len(c.Args) == 1 && !c.Ellipsis.IsValid() {
+			// Sprint of one operand formats it with the default verb: fmt.Sprint(x) == fmt.Sprintf("%v", x)
+			f := u.constVal(constant.MakeString("%v"), types.Typ[types.String])
+			v := u.convert(argv(0), types.NewInterfaceType(nil, nil), env)
+			u.D.Fun("sprintf_2", SStr, SStr, v.Sort)
+			u.D.Trust("fmt.Sprint is total and deterministic (string contents are not modelled)")
+			return ret(env, Value{App("sprintf_2", SStr, f.Term, v.Term), types.Typ[types.String]}), true
+		}
 		var ts []Term
 		var ss []Sort
 		for i := range c.Args {
